@@ -27,10 +27,10 @@ var spot string
 
 var spotlights = map[string][]string{
 	"C01": {"swap-recheck", "other-invoker", "sibling-P", "inv-as-proof", "lookalike", "long-chain", "prov-dlg", "hook-twice", "rootless-after"},
-	"C02": {"self-K", "sibling-K", "alike", "deep", "top-under-one", "long-chain", "reserved", "repeat-cmd", "rawcmd", "widen-back", "bad-utf8"},
-	"C03": {"uslice", "nullopt", "alias", "twin", "sibling-Q", "hook-null", "optional-and", "starstr", "same-selector", "second-args", "below-element"},
+	"C02": {"self-K", "sibling-K", "alike", "deep", "top-under-one", "long-chain", "reserved", "repeat-cmd", "rawcmd", "widen-back", "bad-utf8", "dup-proof"},
+	"C03": {"uslice", "nullopt", "alias", "twin", "sibling-Q", "hook-null", "optional-and", "starstr", "same-selector", "second-args", "below-element", "hook-completes"},
 	"C04": {"far-nbf", "sibling-W", "both-bounds", "unbounded-then-bad", "shared-option"},
-	"C05": {"far-exp", "uslice", "prov-inv", "prov-dlg", "hook-twice", "long-chain", "reuse", "starstr", "repeat-cmd", "overlap-args", "churn", "second-args", "below-element"},
+	"C05": {"far-exp", "uslice", "prov-inv", "prov-dlg", "hook-twice", "long-chain", "reuse", "starstr", "repeat-cmd", "overlap-args", "churn", "second-args", "below-element", "map-order", "hook-completes"},
 	"C07": {"far-exp", "uslice", "nullopt"},
 	"C09": {"inv-as-proof", "long-chain", "deep"},
 	"":    {"swap-recheck", "other-invoker", "self-K", "sibling-K", "uslice", "nullopt", "alias", "twin", "far-nbf", "far-exp", "inv-as-proof", "sibling-W"},
@@ -240,11 +240,16 @@ func genArgs(r *Rand) []KV {
 		}
 		out = append(out, KV{"l", Val{K: "list", L: l}})
 	}
-	if spotWant(r, "nullopt", 0.35) {
+	if spotWant(r, "nullopt", 0.35) || spot == "map-order" {
 		m := vMap(KV{"x", vInt(int64(r.Range(0, 9)))}, KV{"y", vStr(randWord(r, 1, 4))})
 		if spotWant(r, "nullopt", 0.3) {
 			// a field that is present and holds an explicit null
 			m.M = append(m.M, KV{"z", vNull()})
+		}
+		if spotWant(r, "map-order", 0.3) {
+			// keys of different lengths: a map built in memory lists them alphabetically (kk, x, y),
+			// the same map read from DAG-CBOR shortest first (x, y, kk) - the same map
+			m.M = append(m.M, KV{"kk", vInt(int64(r.Range(0, 9)))})
 		}
 		out = append(out, KV{"m", m})
 	}
@@ -458,9 +463,9 @@ func genStmt0(r *Rand, a []KV, want bool, depth int, top bool) Stmt {
 		return Stmt{Op: Pick(r, []string{"==", "<", ">="}), Sel: Pick(r, []string{".zz", ".m.zz", ".zz.y"}), Val: ptr(vInt(int64(r.Range(0, 5))))}
 	}
 	kv := a[r.Intn(len(a))]
-	if top && (spot == "uslice" || spot == "nullopt" || spot == "starstr" || spot == "second-args" || spot == "below-element") {
+	if top && (spot == "map-order" || spot == "uslice" || spot == "nullopt" || spot == "starstr" || spot == "second-args" || spot == "below-element") {
 		for _, x := range a {
-			if ((spot == "uslice" || spot == "second-args") && x.Key == "u") || (spot == "nullopt" && x.Key == "m") || (spot == "below-element" && x.Key == "pairs") || (spot == "starstr" && x.Key == "g") {
+			if ((spot == "uslice" || spot == "second-args") && x.Key == "u") || ((spot == "nullopt" || spot == "map-order") && x.Key == "m") || (spot == "below-element" && x.Key == "pairs") || (spot == "starstr" && x.Key == "g") {
 				kv = x
 			}
 		}
@@ -654,6 +659,9 @@ func genStmt0(r *Rand, a []KV, want bool, depth int, top bool) Stmt {
 				{Op: "like", Sel: sel + ".z?", Pat: "*"},
 				{Op: "==", Sel: sel + ".z", Val: ptr(vBool(false))},
 			})
+		}
+		if want && spot == "map-order" && top {
+			return Stmt{Op: "==", Sel: sel, Val: ptr(v)}
 		}
 		if want {
 			return Pick(r, []Stmt{
@@ -944,7 +952,7 @@ func genWorld(r *Rand, cfg GenCfg) Plan {
 	defer func() { deepCommands = false }()
 	nLinks := []int{1, 1, 2, 2, 3, 3, 4, 5, 6, 8, 0}[r.Intn(11)]
 	switch spot {
-	case "alias", "self-K", "sibling-K", "sibling-P", "sibling-Q", "sibling-W", "unbounded-then-bad", "top-under-one", "twin", "shared-option":
+	case "alias", "self-K", "sibling-K", "sibling-P", "sibling-Q", "sibling-W", "unbounded-then-bad", "top-under-one", "twin", "shared-option", "dup-proof":
 		if nLinks < 3 {
 			nLinks = 3 + r.Intn(3)
 		}
@@ -985,9 +993,9 @@ func genWorld(r *Rand, cfg GenCfg) Plan {
 	}
 	forced := ""
 	switch spot {
-	case "swap-recheck", "other-invoker", "sibling-P", "sibling-K", "sibling-Q", "sibling-W", "prov-dlg", "prov-inv", "hook-twice", "far-exp", "reuse", "rootless-after", "second-args", "churn":
+	case "swap-recheck", "other-invoker", "sibling-P", "sibling-K", "sibling-Q", "sibling-W", "prov-dlg", "prov-inv", "hook-twice", "far-exp", "reuse", "rootless-after", "second-args", "churn", "map-order", "hook-completes":
 		conform = true
-	case "self-K", "alike", "top-under-one", "reserved", "rawcmd", "widen-back", "bad-utf8":
+	case "self-K", "alike", "top-under-one", "reserved", "rawcmd", "widen-back", "bad-utf8", "dup-proof":
 		conform, forced = false, "K"
 	case "repeat-cmd", "overlap-args", "shared-option":
 		conform = true
@@ -1038,6 +1046,20 @@ func genWorld(r *Rand, cfg GenCfg) Plan {
 				g.deviateW(c, tcSec)
 			}
 		}
+	}
+
+	// statements over an argument only the executor's hook supplies ("extra"): negated,
+	// compared, ordered; without the hook they have nothing to look at
+	hookCompletes := false
+	if conform && len(c.dlgs) > 0 && spotWant(r, "hook-completes", 0.06) {
+		hookCompletes = true
+		k := r.Intn(len(c.dlgs))
+		c.dlgs[k].Pol = append(c.dlgs[k].Pol, Pick(r, []Stmt{
+			{Op: "not", Kids: []Stmt{{Op: "==", Sel: ".extra", Val: ptr(vInt(8))}}},
+			{Op: "not", Kids: []Stmt{{Op: ">", Sel: ".extra", Val: ptr(vInt(5))}}},
+			{Op: "==", Sel: ".extra", Val: ptr(vInt(3))},
+			{Op: "and", Kids: []Stmt{{Op: "not", Kids: []Stmt{{Op: "==", Sel: ".extra", Val: ptr(vStr("x"))}}}, {Op: "<=", Sel: ".extra", Val: ptr(vInt(3))}}},
+		}))
 	}
 
 	// an attenuated leaf (PolFrom) lists its base's statements first, as they stand after every
@@ -1173,6 +1195,8 @@ func genWorld(r *Rand, cfg GenCfg) Plan {
 			ck.Prov = Pick(r, []string{"inv-built", "dlg-built", "all-built", "inv-json", "dlg-json", "all-json"})
 		}
 		switch spot {
+		case "map-order":
+			ck.Prov = Pick(r, []string{"inv-built", "dlg-built", "inv-json", "dlg-json"})
 		case "prov-dlg":
 			ck.Prov = Pick(r, []string{"dlg-built", "all-built", "dlg-json", "all-json"})
 		case "prov-inv":
@@ -1210,6 +1234,9 @@ func genWorld(r *Rand, cfg GenCfg) Plan {
 			if ck.Hook == "add" || ck.Hook == "add-include" {
 				ck.HookKey = "extra"
 			}
+		}
+		if hookCompletes {
+			ck.Hook, ck.HookKey, ck.HookVal = Pick(r, []string{"add", "add-include"}), "extra", ptr(vInt(3))
 		}
 		return ck
 	}
@@ -1726,6 +1753,18 @@ func (g *wgen) deviateK(c *chain) {
 		// command the leaf does not cover
 		c.inv.Cmd = nc
 		g.note("K:" + kind + "@inv")
+		return
+	}
+	if n >= 2 && len(c.inv.Prf) == n && (sp == "dup-proof" || r.Chance(0.05)) {
+		// the leaf is named a second time further up the proof list ([leaf, parent, leaf, ...]),
+		// and it is strictly narrower than its parent: the list as it stands widens at the repeated
+		// entry (and is misaligned there), while the list without the repetition is a fine chain
+		c.dlgs[n-1].Cmd = extendCmd(r, c.dlgs[n-2].Cmd)
+		c.inv.Cmd = c.dlgs[n-1].Cmd
+		prf := append([]string{}, c.inv.Prf[:2]...)
+		prf = append(prf, c.inv.Prf[0])
+		c.inv.Prf = append(prf, c.inv.Prf[2:]...)
+		g.note(fmt.Sprintf("K:dup-proof/%d", n))
 		return
 	}
 	if P := c.dlgs[k-1].Cmd; P != "/" && !strings.HasPrefix(P, cmdBytesPrefix) && (sp == "bad-utf8" || r.Chance(0.06)) {
